@@ -260,7 +260,9 @@ def shipped_case(draw, paths):
     acts = draw(st.lists(st.tuples(st.just("step"), st.integers(0, 10 ** 6)).map(list), min_size=2 if slow else 3,
                          max_size=3 if slow else (8 if big else 20)))
     ops = [["reset", s]] + acts + [["reset", s]] + acts
-    return {"src": "shipped", "path": p, "max_len": None, "cfg_seed": draw(st.sampled_from([None, 3])), "ops": ops}
+    # "same": the scenario's own game.seed is the very value passed to reset(seed=s) - re-seeding must still happen
+    cs = draw(st.sampled_from([None, 3, "same"]))
+    return {"src": "shipped", "path": p, "max_len": None, "cfg_seed": s if cs == "same" else cs, "ops": ops}
 
 
 @st.composite
@@ -277,6 +279,8 @@ def gen_case(draw):
         c["spec"]["bw"] = None
     acts = [o for o in c["ops"] if o[0] != "reset"] or [["step", 0]]
     s = draw(SEEDS)
+    if draw(st.integers(0, 2)) == 0:
+        c["spec"]["seed"] = s  # the configured seed and the reset seed coincide
     c["ops"] = [["reset", s]] + acts + [["reset", s]] + acts
     return c
 
@@ -300,7 +304,7 @@ def trial_case(draw):
     s = draw(SEEDS)
     acts = [["step", 0] for _ in range(draw(st.integers(14, 24)))]
     return {"src": "shipped", "path": "src/primaite/config/_package_data/data_manipulation.yaml", "max_len": None,
-            "cfg_seed": draw(st.sampled_from([None, 3])), "tweak": draw(st.sampled_from(["early_attack", "shared_first"])),
+            "cfg_seed": draw(st.sampled_from([None, 3, s])), "tweak": draw(st.sampled_from(["early_attack", "shared_first"])),
             "p": draw(st.sampled_from([0.3, 0.5, 0.7])),
             "ops": [["reset", s]] + acts + [["reset", s]] + acts + [["reset", s]] + acts + [["reset", s]] + acts}
 
